@@ -385,3 +385,88 @@ pub proof fn lemma_entry_reads_back(d: Seq<u8>, p: int, f: ZipFileData, g: ZipFi
     lemma_msdos_dt_inv(f.last_modified_time);
     lemma_made_by_inv(f.system, f.version_made_by);
 }
+
+// ---- (L5) the whole directory: what finalize is proved to leave in the sink (dir_written, U7) is walked by the reader
+// (dir_parsed: what U8b proves of ZipArchive::new and U7b of new_append) record for record
+// what lemma_entry_reads_back needs of an entry beyond what dir_written already records about it
+pub open spec fn entry_readable(f: ZipFileData) -> bool {
+    &&& xneutral(f.extra_field@, 0)
+    &&& (f.compression_method is Stored || f.compression_method is Deflated || f.compression_method is Bzip2 || f.compression_method is Zstd)
+    &&& 1980 <= f.last_modified_time.year <= 2107 && 1 <= f.last_modified_time.month <= 12 && 1 <= f.last_modified_time.day <= 31
+    &&& f.last_modified_time.hour <= 23 && f.last_modified_time.minute <= 59 && f.last_modified_time.second <= 59
+}
+// the entry g the reader reports carries the metadata of the entry f that was written (timestamp to 2 s)
+pub open spec fn entry_read_back(f: ZipFileData, g: ZipFileData) -> bool {
+    &&& g.file_name@ == f.file_name@
+    &&& g.file_name_raw@ == utf8(f.file_name@)
+    &&& g.crc32 == f.crc32
+    &&& g.uncompressed_size == f.uncompressed_size
+    &&& g.compressed_size == f.compressed_size
+    &&& g.header_start == f.header_start
+    &&& g.compression_method == f.compression_method
+    &&& g.aes_mode is None
+    &&& g.external_attributes == f.external_attributes
+    &&& g.encrypted == f.encrypted
+    &&& !g.using_data_descriptor
+    &&& g.version_made_by == f.version_made_by
+    &&& ((f.system is Dos || f.system is Unix) ==> g.system == f.system)
+    &&& g.extra_field@ == z64c_of(f) + f.extra_field@
+    &&& g.last_modified_time.year == f.last_modified_time.year
+    &&& g.last_modified_time.month == f.last_modified_time.month
+    &&& g.last_modified_time.day == f.last_modified_time.day
+    &&& g.last_modified_time.hour == f.last_modified_time.hour
+    &&& g.last_modified_time.minute == f.last_modified_time.minute
+    &&& g.last_modified_time.second == f.last_modified_time.second & 0xFE
+}
+// the reader's walk (next = current + the length fields it decodes) visits the offsets the writer wrote at
+pub proof fn lemma_walks_agree(d: Seq<u8>, files: Seq<ZipFileData>, cs: int, j: int)
+    requires 0 <= cs, 0 <= j <= files.len(), dir_written(d, files, cs, files.len() as int)
+    ensures cd_pos(d, cs, j) == cdw_pos(files, cs, j)
+    decreases j
+{
+    if j > 0 {
+        lemma_walks_agree(d, files, cs, j - 1);
+        let p = cdw_pos(files, cs, j - 1);
+        let f = files[j - 1];
+        lemma_cdw_pos_mono(files, cs, j - 1, j - 1);
+        assert(cdh_rec_at(d, f, p));
+        let nd = choose|nd: u16| needed_ok(f, nd) && (#[trigger] le16(nd)).len() == 2 && inb(d, p, cdh_rec_len(f))
+            && at(d, p, cdh_rec_len(f)) == enc_cdh(cdh_of(f, nd));
+        let h = cdh_of(f, nd);
+        lemma_cdh_rec_len(f, nd);
+        lemma_put_same(d, p, enc_cdh(h));
+        lemma_cdh_roundtrip(d, p, h);
+        assert(cdh_len(d, p) == cdh_rec_len(f));
+    }
+}
+// @props: C01 C02 C13 -- the directory the writer emits is walked by the reader record for record and every entry comes back with the metadata it was written with
+pub proof fn lemma_directory_reads_back(d: Seq<u8>, files: Seq<ZipFileData>, cs: int, got: Seq<ZipFileData>)
+    requires
+        0 <= cs,
+        dir_written(d, files, cs, files.len() as int),
+        got.len() == files.len(),
+        dir_parsed(d, cs, got, 0),
+        forall|j: int| 0 <= j < files.len() ==> entry_readable(#[trigger] files[j]),
+    ensures
+        forall|j: int| 0 <= j <= files.len() ==> #[trigger] cd_pos(d, cs, j) == cdw_pos(files, cs, j),
+        forall|j: int| 0 <= j < files.len() ==> entry_read_back(files[j], #[trigger] got[j])
+            && got[j].central_header_start == cdw_pos(files, cs, j) as u64,
+{
+    assert forall|j: int| 0 <= j <= files.len() implies #[trigger] cd_pos(d, cs, j) == cdw_pos(files, cs, j) by {
+        lemma_walks_agree(d, files, cs, j);
+    }
+    assert forall|j: int| 0 <= j < files.len() implies entry_read_back(files[j], #[trigger] got[j])
+        && got[j].central_header_start == cdw_pos(files, cs, j) as u64 by {
+        let p = cdw_pos(files, cs, j);
+        let f = files[j];
+        assert(cd_pos(d, cs, j) == p);
+        lemma_cdw_pos_mono(files, cs, j, j);
+        assert(cdh_rec_at(d, f, p));
+        let nd = choose|nd: u16| needed_ok(f, nd) && (#[trigger] le16(nd)).len() == 2 && inb(d, p, cdh_rec_len(f))
+            && at(d, p, cdh_rec_len(f)) == enc_cdh(cdh_of(f, nd));
+        lemma_cdh_rec_len(f, nd);
+        assert(entry_readable(f));
+        assert(parsed_matches(got[j], dec_cdh(d, p), p as u64, 0));
+        lemma_entry_reads_back(d, p, f, got[j], nd, p as u64);
+    }
+}
